@@ -5,7 +5,7 @@
    Known finding D3 (ty::parse drops a token): the run's ghost list pr_dropped records the dropped tokens;
    the theorems are stated for runs that dropped no text, and C02_lossless_refuted exhibits the failure. *)
 From ApolloVerif Require Import Base.Chars Lex.Item Parse.Outcome Parse.Builder Parse.Limits Parse.Monad
-  Parse.Grammar Parse.Entry Parse.LosslessDefs Parse.Lossless.
+  Parse.Grammar Parse.Entry Parse.LosslessDefs Parse.Lossless Lex.Fun Parse.Compose.
 
 Theorem C02_lossless : forall dbg rl items r,
   Forall item_name_ok items -> eof_terminated items ->
@@ -20,6 +20,15 @@ Check C02_lossless : forall dbg rl items r,
   parse_document_items dbg rl items = POk r -> ~ Known_D3 r ->
   p_text_of (pr_tree r) = concat (map item_data items).
 Print Assumptions C02_lossless.
+
+(* composed with the lexer model (C03: the items of lex_all s are Eof-terminated, their data concatenate to s,
+   Name tokens carry names): the text of the document tree IS the source string *)
+Theorem C02_lossless_source : forall dbg rl s r,
+  parse_document_items dbg rl (lex_all s) = POk r -> ~ Known_D3 r -> p_text_of (pr_tree r) = s.
+Proof. exact document_lossless_source. Qed.
+Check C02_lossless_source : forall dbg rl s r,
+  parse_document_items dbg rl (lex_all s) = POk r -> ~ Known_D3 r -> p_text_of (pr_tree r) = s.
+Print Assumptions C02_lossless_source.
 
 (* every item's text appears exactly once, in order, as the text of one token of the tree
    (ne = the non-empty texts: the Eof token and the limit error carry none) *)
